@@ -25,17 +25,17 @@ CHECKS["C18"] = dict(
    note="Trusts oracles/numfmt.py, numparse.py, mathref.py, prims.py (0 disagreements with node on the exactly specified cases at development time).",
    ref="4/C18")
 CHECKS["C14"] = dict(
-   technique="parameterised shape templates with closed-form results swept across the instruction-encoding boundaries (size metamorphic relation)",
+   technique="parameterised shape templates with closed-form results swept across the instruction-encoding boundaries (size metamorphic relation); typed twin tables / operands that are equal for the host but different JavaScript values",
    text="12 operand-indexed shapes (locals, params, arguments, literals, constants, names, functions, captured variables, regex literals, switch cases) with n across 254..257/511..513/1000 and 14 byte-offset shapes (if/else, loops with break/continue, try, switch, logical/plus chains, string literal) sized from the measured bytecode bytes per statement to sit just below/at/above 256, 32768, 65536, 70000, 131072 and 200000 bytes, each at top level, in a function and in a callback. The result must equal the closed form, or eval must refuse with a JSError about size before anything ran (host flag).",
    note="Expected values are closed forms computed by the check. The byte sizing reads Compiler output when importable (fail-soft to a wide sweep).",
    ref="4/C14")
 CHECKS["C02"] = dict(
-   technique="recursion-shape enumeration with an exact stop-class/depth oracle + seeded random abrupt-exit bodies under a metamorphic N-iterations-in-the-same-memory relation",
+   technique="recursion-shape and call-free growth-shape enumeration with an exact stop-class/depth oracle + seeded random abrupt-exit bodies and the try/catch/finally shape space under a metamorphic N-iterations-in-the-same-memory relation",
    text="(a) 20 script recursion shapes plus recursion through every discovered callback-taking built-in, accessors, conversions, call/apply/bind and eval x memory limits 2e3..1e7 x time limit set/unset must end in MemoryLimitError (never RecursionError, a crash, a value) at a depth bounded by M/200. (b) Randomly generated terminating bodies built from loops, for-in/for-of, switch, labelled blocks, try/catch/finally, helper calls and mid-expression throws with every abrupt exit kind are run N=300 (2000) times under 4x the memory one run needs: no MemoryLimitError, exactly N times the single-run log, and a sentinel thrown afterwards must surface uncaught (stale handlers would swallow it).",
    note="(b) is metamorphic (needs no model of the body's meaning). Heap data is unaccounted by the engine by documentation and not judged.",
    ref="4/C02")
 CHECKS["C19"] = dict(
-   technique="Hypothesis-generated JSON values, grammar-generated texts, single-token near-miss mutants and non-JSON script values against a hand-written strict parser/serialiser; round-trip laws",
+   technique="Hypothesis-generated JSON values, grammar-generated texts, single-token near-miss mutants, wide documents, every callable kind in every position and non-JSON script values against a hand-written strict parser/serialiser; round-trip laws",
    text="parse(t) equals the reference value (typed, UTF-16), every near-miss text is rejected with a SyntaxError the script itself catches, stringify(v) equals the SerializeJSONProperty transcription for values incl. undefined/functions/NaN/cycles/toJSON/replacer/indent, parse(stringify(v)) == v and stringify(parse(t)) == canonical(t); 1.15e5 cases quick, 1.9e6 thorough.",
    note="Trusts oracles/jsonref.py (0 disagreements with node on 78 201 generated cases at development time). Integer-key ordering and accessor serialisation are recorded known findings of the object model.",
    ref="4/C19")
@@ -50,7 +50,7 @@ CHECKS["C11"] = dict(
    note="Domain restricted to what the property states: JSON-like values with str keys; host callables return primitives, None or (the documented way for structures) JSObject / JSArray instances.",
    ref="4/C11")
 CHECKS["C15"] = dict(
-   technique="differential self-consistency across host hash seeds (one subprocess per PYTHONHASHSEED), evaluation orders, polluted processes and repetition; generated programs carry their expected value",
+   technique="differential self-consistency across host hash seeds (one subprocess per PYTHONHASHSEED), evaluation orders, polluted and isolated processes and repetition; generated programs (closures, computed-key kinds, own-name / arguments shadowing, multi-name error texts) carry their expected value",
    text="400 (4000) seeded closure-heavy programs (>= 3 parameters/locals/closures, captured and pass-through variables in shuffled textual order, named function expressions, arguments, shadowing) and the whole 383-program corpus are evaluated on fresh contexts under 16 (72) hash seeds, forward/reversed/shuffled orders, after a context that mutated built-ins, and twice in a row; every outcome vector (value, error class and message, log) must be identical, and each generated program must also produce the value computed by the generator.",
    note="Programs stopped by the wall-clock time limit are excluded (clock dependent by definition). Math.random/Date.now are never generated and filtered from the corpus.",
    ref="4/C15")
@@ -60,7 +60,7 @@ CHECKS["C03"] = dict(
    note="ES-defined names per receiver kind are frozen from node 20 at development time (golden/es_receiver_names.json); the engine's array-valued arguments object is treated as an array. An open-world negative claim: gadget chains outside the access-form grammar are not reached.",
    ref="4/C03")
 CHECKS["C04"] = dict(
-   technique="grammar-free and grammar-aware source fuzzing (character soup, token soup, token-level corpus mutations, prefixes) plus adversarial calls of every discovered built-in, oracle = exception family + metamorphic position shift",
+   technique="grammar-free and grammar-aware source fuzzing (character soup, token soup, token-level corpus mutations, prefixes) plus adversarial calls of every discovered built-in (incl. receiver-mutating argument conversions, 2000-level structures, generated backreference patterns) and hard-to-convert result shapes, oracle = exception family + metamorphic position shift",
    text="(a) 78 000 (1e6) generated sources, repaired to nesting depth <= 30, must evaluate to a value or a microjs JSError; a JSSyntaxError must point inside the source and its position must shift by exactly k under k leading newlines (and k leading spaces for errors on line 1); nothing hangs. (b) every function-valued member of 37 receiver kinds and every global function is called with singles, pairs and triples from a 34-value adversarial grid in five call forms inside a script-level try/catch: no host exception may escape. Foreign exceptions are bucketed by (type, innermost microjs frame) and bisected to one call.",
    note="Nesting deeper than 30 is out of scope (README). MemoryError on requests tagged huge is counted resource_excluded. Thorough adds every prefix of every small corpus program.",
    ref="4/C04")
@@ -70,7 +70,7 @@ CHECKS["C10"] = dict(
    note="Boundedness is judged against the engine's own step and stack budgets, not wall time. Atheris (thorough) is skipped with a note when unavailable.",
    ref="4/C10")
 CHECKS["C13"] = dict(
-   technique="exhaustive and random expression trees through a minimal-parenthesis printer (parse(print(t)) == t), metamorphic trivia/parenthesis insertion, print/parse round trip, literal-spelling oracles and rejection of programs invalid by construction",
+   technique="exhaustive and random expression trees through a minimal-parenthesis printer (parse(print(t)) == t), metamorphic trivia/parenthesis insertion, print/parse round trip, generated programs must parse to the generated tree, literal-spelling oracles and rejection of programs invalid by construction (incl. raw line terminators in string literals)",
    text="All 5 550 two-operator trees, a seed-rotated third (all in thorough) of 140 168 three-operator trees over 62 operator forms and random deeper trees are printed with ES precedence/associativity and with full parentheses and must parse back to the same tree and evaluate typed-equal; generated and all 383 corpus programs are re-rendered with random whitespace/comments/line breaks (never in restricted positions) and redundant parentheses: same tree, same outcome; parse(print(parse(s))) == parse(s); 40 000 number and string literal spellings denote the value of the reference grammar; ~20 000 programs made invalid by construction (missing closer/quote/comment or regex terminator, non-reference assignment/update/for-in targets, stray closer, broken ?:, bare in) must raise JSSyntaxError.",
    note="Printer, trivia renderer, rejection operators and literal oracles were validated against node 20 at development time (0 disagreements). The engine's tolerance of missing statement separators on one line is not judged.",
    ref="4/C13")
@@ -85,7 +85,7 @@ CHECKS["C05"] = dict(
    note="Trusts oracles/refjs.py (0 disagreements with node --use_strict on 30 319 generated programs at development time) under the documented restrictions (for-in own keys, strict array writes). Operators are kept inside a safe core (C06 judges operators).",
    ref="4/C05")
 CHECKS["C12"] = dict(
-   technique="exhaustive short and seeded random long operation histories over several contexts, model-checked against one dictionary per context after every step",
+   technique="exhaustive short and seeded random long operation histories over several contexts, model-checked against one dictionary per context after every step; process-global settings snapshot, depth-probe witness context and freshness of engine-created objects across contexts",
    text="All histories of length 3 (quick: seed-rotated sixth; thorough: all, plus 20 000 of length 4) over a 15-operation alphabet x 2 contexts, and random 8-40 step histories over 2-3 contexts with different limits: definitions, redeclarations, function definitions, eval/new Function definitions, Python set, in-place mutation, built-in mutations, and six kinds of failing eval (syntax error after valid statements, throw after effects, endless loop under a time limit, unbounded recursion under a memory limit, error inside a callback/getter, bad regex). After every step, on every context: every modelled global through get and eval, never-defined names undefined, built-in mutations visible only where made, a 12-probe battery answers as on a pristine context.",
    note="Time-limited contexts use the real clock (T = 40 ms); the model of an interrupted counter loop is monotone only.",
    ref="4/C12")
@@ -100,7 +100,7 @@ CHECKS["C07"] = dict(
    note="Trusts oracles/refjs.py + refjs_c07.py (0 disagreements with node on 25 201 generated programs at development time). Error message wording is compared only for non-emptiness / containment.",
    ref="4/C07")
 CHECKS["C08"] = dict(
-   technique="seeded operation histories over an object graph model-checked against an abstract object model after every step; exhaustive call-form x function-kind grid against the reference interpreter",
+   technique="seeded operation histories over an object graph model-checked against an abstract object model after every step; exhaustive call-form x function-kind grid against the reference interpreter; enumerated object-model clauses over 84 kinds of engine-created receivers",
    text="(a) Histories of 26 (40) steps over 15 operations (object literals with data/accessor/computed/numeric/__proto__ entries, Object.create with descriptors, new through constructor chains, set/get/delete with identifier, string, numeric and computed keys incl. inherited names and non-canonical numeric strings, defineProperty, setPrototypeOf, F.prototype assignment, Object.assign, inherited accessors) on one Context holding o0..o7 and F0..F3; after every step every live object is observed (read, in, hasOwnProperty, keys/values/entries, for-in, getPrototypeOf, instanceof, isPrototypeOf, JSON.stringify) and compared with the model. (b) 457 call programs: function kinds x call forms x this arguments, observing this, arguments, length, name, return value, instanceof and constructor of the result.",
    note="Trusts oracles/objmodel.py and refjs.py (0 disagreements with node on 60 000 steps / 17.3 M observations and 457 call programs at development time). Integer-key order, functions as objects, null-prototype fallback methods and built-in function length/name are recorded known findings (cells/guards).",
    ref="4/C08")
